@@ -297,6 +297,10 @@ def get_max_advance(world: World, sim: SimRunner, until: int) -> int:
     for anc_sim, distance in sim.triggering_ancestors.items():
         if anc_sim.next_steps:
             ancs_next_steps.append((anc_sim.next_steps[0] + distance).time)
+        # The output of a step that an ancestor is performing right now
+        # can still trigger us as well.
+        if anc_sim is not sim and anc_sim.current_step is not None:
+            ancs_next_steps.append((anc_sim.current_step + distance).time)
 
     own_next_step = [sim.next_steps[0].time] if sim.next_steps else []
 
@@ -467,6 +471,14 @@ def advance_progress(sim: SimRunner, world: World):
         for pre_sim, distance in sim.triggering_ancestors.items()
         if pre_sim.next_steps
     ]
+    # An ancestor that is currently performing a step (its step has been
+    # removed from its next_steps) can still trigger us with that step's
+    # output.
+    pre_sim_current_progress: List[TieredTime] = [
+        pre_sim.current_step + distance
+        for pre_sim, distance in sim.triggering_ancestors.items()
+        if pre_sim.current_step is not None
+    ]
 
     next_step_progress: List[TieredTime] = [sim.next_steps[0]] if sim.next_steps else []
     current_step_prog = [sim.current_step] if sim.current_step else []
@@ -477,6 +489,7 @@ def advance_progress(sim: SimRunner, world: World):
         rt_progress = []
     new_progress = min([
         *pre_sim_induced_progress,
+        *pre_sim_current_progress,
         *next_step_progress,
         *current_step_prog,
         *rt_progress,
